@@ -40,6 +40,9 @@ vlib.standard_check({
     "nontrivial": lambda t: t.get("stats", {}).get("designs.crossing", 0) + t.get("stats", {}).get("designs.clean", 0),
     "extra_cov": extra_cov,
     "rule": "random multi-clock designs built through the real frontend (ClockScope, reg with/without reset and enable, register feedback, pinIn/pinOut, "
+            "single-bit flags with logic before/between/behind markers (NOT, NOT NOT, AND/OR/XOR, no-ops), marker outputs used as IF condition (plain, negated, IF/ELSE, "
+            "same condition twice, condition then its negation, nested, shared), explicit mux selector, register enable, memory write enable / address / data, "
+            "constant conditions, no-op rewires, marker chains; "
             "memories with/without noConflicts, IF-muxes, arithmetic/logic, allowClockDomainCrossing and scl::synchronize with right/random clocks, derived clocks "
             "that share / do not share the pin, default clock, unbound clocks, areas/entities); disciplines: clean / exactly one undisciplined statement / few / wild / "
             "single domain. evaluations = output ports whose inferred domain, output relation and owning node's check were compared between the model and the real code "
